@@ -148,11 +148,36 @@ def timing_oracle(case, steps, hashes):
     prev_state = {"services": []}
     waiting = 0       # consecutive rounds that left due work out
     phi_start = 0
+    owned = {}        # address -> gRPC connection that registered it here (from the op log alone)
     for ix, (op, st) in enumerate(zip(case["ops"], steps)):
         now = st["now"]
         cur_state = nc.canon_impl_state(st["st"])
         cur = all_instances(cur_state)
         deferred = set()
+        # history-only ownership: an ephemeral instance registered by a LIVE gRPC connection of this node stays that
+        # connection's instance whatever HTTP / console writes touch it afterwards; it is never under the heartbeat clock
+        if op[0] == "upd" and not op[4]:
+            key, i = (tuple(op[1]), op[2]["k"]), op[2]
+            if i["fg"] and i["cl"] and i["fc"] == 0 and i["ep"] and key in cur:
+                owned[key] = i["cl"]
+            elif key in owned and not i["ep"]:
+                # an HTTP write that NAMES the instance persistent (even when its tag leaves the stored flag alone) ends the
+                # connection's ownership in r-nacos: not judged by this rule any further
+                owned.pop(key, None)
+        elif op[0] == "del":
+            owned.pop((tuple(op[1]), op[2]["k"]), None)
+        elif op[0] == "rmclient":
+            for key in [k for k, c in owned.items() if c == op[1]]:
+                owned.pop(key)
+        elif op[0] not in ("tick", "check", "qlist", "qall", "range", "upd"):
+            for key, _how in touched_keys(op):
+                owned.pop(key, None)           # overwritten by a sync path: judged by the state-based rules only
+        if op[0] == "check":
+            for key, c in owned.items():
+                v, after = prev.get(key), cur.get(key)
+                if v is not None and (after is None or (v["he"] and not after["he"])):
+                    bad.append(("grpc-owned-expired", "instance %s, registered by the live gRPC connection %s and never deregistered, was %s by "
+                                "the heartbeat clock" % (key, c, "removed" if after is None else "marked unhealthy"), ix))
         if op[0] == "check":
             b, deferred = budget_oracle(prev_state, cur_state, now, budget, ix)
             bad += b
